@@ -56,6 +56,14 @@ func init() {
 	}
 	I["strings.Index"] = func(m *Machine, fn *ssa.Function, a []Value) Value {
 		x, y := a[0].(StringVal), a[1].(StringVal)
+		if x.Sym == nil && y.Sym != nil && len(y.Sym) == 1 && len(x.S) <= 64 {
+			// one symbolic byte searched in a concrete string: ite chain over the positions, -1 if absent
+			res := m.tt.Const(^uint64(0), 64)
+			for i := len(x.S) - 1; i >= 0; i-- {
+				res = m.tt.Ite(m.tt.Eq(y.Sym[0], m.tt.Const(uint64(x.S[i]), 8)), m.tt.Const(uint64(i), 64), res)
+			}
+			return res
+		}
 		if x.Sym != nil || y.Sym != nil {
 			m.unsupported("strings.Index on symbolic strings")
 		}
@@ -906,7 +914,10 @@ var _ = sort.Ints
 // lookupIntrinsic resolves the intrinsic (or harness stub) for fn, if any.
 func lookupIntrinsic(m *Machine, fn *ssa.Function, name string) intrinsicFn {
 	// harness-declared stubs take precedence over built-in intrinsics
-	if target, ok := m.cfg.Stubs[name]; ok {
+	realBody := false
+	if target, ok := m.cfg.Stubs[name]; ok && target == "-" {
+		realBody = true // "//zz:stub <name> -": execute the real body although a convention stub exists
+	} else if ok {
 		if hp := m.ld.prog.ImportedPackage(m.cfg.Pkg); hp != nil {
 			if sf := hp.Func(target); sf != nil {
 				return func(m *Machine, fn *ssa.Function, a []Value) Value { return m.callFn(sf, a, nil) }
@@ -915,7 +926,7 @@ func lookupIntrinsic(m *Machine, fn *ssa.Function, name string) intrinsicFn {
 	}
 	// convention stubs: a function zzstub_<Type>_<Method> / zzstub_<Func> in the SAME package as the
 	// callee (added through the overlay, e.g. harness/pkg/db/zz_verif_model_db.go) replaces it symbolically
-	if fn.Pkg != nil && strings.HasPrefix(fn.Pkg.Pkg.Path(), modulePath) {
+	if !realBody && fn.Pkg != nil && strings.HasPrefix(fn.Pkg.Pkg.Path(), modulePath) {
 		sname := "zzstub_" + fn.Name()
 		if recv := fn.Signature.Recv(); recv != nil {
 			rt := recv.Type()
@@ -957,7 +968,7 @@ func lookupIntrinsic(m *Machine, fn *ssa.Function, name string) intrinsicFn {
 		}
 	}
 	// harness-declared stubs: "<full name>" -> harness function name in the same package as the harness
-	if target, ok := m.cfg.Stubs[name]; ok {
+	if target, ok := m.cfg.Stubs[name]; ok && target != "-" {
 		hp := m.ld.prog.ImportedPackage(m.cfg.Pkg)
 		if hp == nil {
 			return nil
